@@ -29,21 +29,25 @@ async fn wait_frames(w: &World, peer: &mut Peer, consumed: usize, n: usize) -> O
     None
 }
 
-fn execute(case: &(usize, usize, usize), ctx: &WorkerCtx) -> ExecResult {
+fn execute(case: &(usize, usize, usize), ctx: &WorkerCtx) -> ExecResult { execute_with(case, COOKIE, COOKIE, ctx) }
+
+/// `cookie` is what the library is configured with; `peer_cookie` is what the otherwise conforming peer proves and checks.
+fn execute_with(case: &(usize, usize, usize), cookie: &str, peer_cookie: &str, ctx: &WorkerCtx) -> ExecResult {
     let (si, ci, ai) = *case;
+    let (cookie, peer_cookie) = (cookie.to_string(), peer_cookie.to_string());
     run_rt(async move {
         let mut res = ExecResult::default();
         tokio::time::pause();
         let w = World::new(ctx.heartbeat.clone(), &ctx.listeners).await;
         w.gates.set_active(&[]);
         let our_flags = flags_default();
-        let cfg = ConnectionConfig::new("me@127.0.0.1", PEER_NAME, COOKIE).with_epmd_host("127.0.0.1").with_flags(DistributionFlags::new(our_flags)).with_timeout(TIMEOUT).with_creation(42u32);
+        let cfg = ConnectionConfig::new("me@127.0.0.1", PEER_NAME, cookie.as_str()).with_epmd_host("127.0.0.1").with_flags(DistributionFlags::new(our_flags)).with_timeout(TIMEOUT).with_creation(42u32);
         let mut conn = Connection::new(cfg);
         let mut h = tokio::spawn(async move { let r = conn.connect().await; (conn, r) });
         let names = (STATUS[si], CHALLENGE[ci], ACK[ai]);
         let detail = |what: String| json!({"peer_script": [names.0, names.1, names.2], "what": what});
         let mut peer = match w.accept_peer().await { Some(p) => p, None => { res.violations.push(("library never connected to the peer".into(), detail("accept".into()))); return res; } };
-        let mut conforming = true;
+        let mut conforming = cookie == peer_cookie;
         // an extra frame the protocol has no place for, after which the peer carries on as if nothing had happened
         let mut deviated = false;
         let mut silent = false;
@@ -98,13 +102,13 @@ fn execute(case: &(usize, usize, usize), ctx: &WorkerCtx) -> ExecResult {
                 other => { layout_problem = Some(format!("second message is not the prescribed complement: {:?}", other)); }
             }
             match read_hs_from_initiator(&fr[1]) {
-                Ok(HsMsg::Reply { challenge: c, digest }) => { their = Some(c); if digest != dist_digest(COOKIE, challenge) { layout_problem = Some("reply digest is not MD5(cookie ++ decimal(peer challenge))".into()); } }
+                Ok(HsMsg::Reply { challenge: c, digest }) => { their = Some(c); if digest != dist_digest(&cookie, challenge) { layout_problem = Some("reply digest is not MD5(configured cookie ++ decimal(peer challenge))".into()); } }
                 other => { layout_problem = Some(format!("third message is not the prescribed challenge reply: {:?}", other)); }
             }
             let their = their.unwrap_or(0);
             // --- ack
             match ACK[ai] {
-                "valid" => { peer.send(&frame(&hs_ack(&dist_digest(COOKIE, their)), 2)); }
+                "valid" => { peer.send(&frame(&hs_ack(&dist_digest(&peer_cookie, their)), 2)); }
                 "valid_after_empty_frame" => { peer.send(&[0, 0]); peer.send(&frame(&hs_ack(&dist_digest(COOKIE, their)), 2)); deviated = true; }
                 "valid_after_wrong_digest" => { peer.send(&frame(&hs_ack(&dist_digest("other", their)), 2)); peer.send(&frame(&hs_ack(&dist_digest(COOKIE, their)), 2)); deviated = true; }
                 "wrong_digest" => { peer.send(&frame(&hs_ack(&dist_digest("other", their)), 2)); conforming = false; }
@@ -143,6 +147,8 @@ fn execute(case: &(usize, usize, usize), ctx: &WorkerCtx) -> ExecResult {
         } else if r.is_ok() || connected {
             res.violations.push(("connected state reached although the peer deviated from the handshake".into(), detail(format!("connect ok={} state={}", r.is_ok(), conn.state()))));
         }
+        // the cookie executions judge the first handshake only (the second one below uses the harness's standard cookie)
+        if cookie != COOKIE || peer_cookie != COOKIE { res.outcome = format!("cookie case connected={}", connected); return res; }
         // reuse after close(): a second handshake with a conforming peer succeeds
         let _ = conn.close().await;
         if conn.state() != ConnectionState::Disconnected { res.violations.push(("close() does not return the connection to the disconnected state".into(), detail(conn.state().to_string()))); }
@@ -174,15 +180,23 @@ pub fn run(rep: &Report) -> Value {
         cases.push((s, c, a));
     } } }
     let st: Stats = for_all(rep, "peer deviations", &cases, |c, ctx| execute(c, ctx));
+    // cookies as configured, byte for byte: a peer holding exactly that cookie connects; one holding a trimmed, padded or
+    // re-cased variant does not
+    let mut ck: Vec<(String, String)> = vec![];
+    for c in [" secret", "secret ", "\tsecret\n", "\u{3000}x\u{3000}", "sec ret", "", " ", "Secret"] {
+        ck.push((c.to_string(), c.to_string()));
+        for other in [c.trim().to_string(), format!(" {}", c), c.to_lowercase()] { if other != c { ck.push((c.to_string(), other)); } }
+    }
+    let st_c: Stats = for_all(rep, "cookies with whitespace and case", &ck, |c, ctx| execute_with(&(0, 0, 0), &c.0, &c.1, ctx));
     json!({
-        "states": st.executions,
-        "transitions": st.transitions,
-        "traces_validated_against_impl": st.executions,
+        "states": st.executions + st_c.executions,
+        "transitions": st.transitions + st_c.transitions,
+        "traces_validated_against_impl": st.executions + st_c.executions,
         "samples": [{"peer_script": ["ok", "valid", "reflected_digest"]}, {"peer_script": ["ok_simultaneous", "long_prefix_then_silence"]}, {"peer_script": ["short_frame_then_silence"]}],
         "exhaustive": true,
         "distinct_outcomes": st.distinct_outcomes,
         "outcomes": st.outcomes,
         "unstable_failures_not_reported": st.unstable,
-        "rule": "the real Connection::connect (fake EPMD, loopback socket, paused clock advanced only by the controller) against a scripted peer: 13 status behaviours x 12 challenge behaviours x 12 acknowledgement behaviours (incl. six scripts in which the peer inserts an empty, junk or repeated frame and then carries on correctly) (refusals, garbage, wrong tags, truncations, oversize, reflection, out-of-order, over-long prefix, close, silence) pruned after the first deviation; layout of the three emitted messages checked by an independent parser; connection reused after close()",
+        "rule": "the real Connection::connect (fake EPMD, loopback socket, paused clock advanced only by the controller) against a scripted peer: 13 status behaviours x 12 challenge behaviours x 12 acknowledgement behaviours (incl. six scripts in which the peer inserts an empty, junk or repeated frame and then carries on correctly) (refusals, garbage, wrong tags, truncations, oversize, reflection, out-of-order, over-long prefix, close, silence) pruned after the first deviation; layout of the three emitted messages checked by an independent parser; connection reused after close(); 29 cookie executions (cookies with leading/trailing whitespace, inner space, empty, one space, mixed case: the peer holding exactly the configured cookie connects, peers holding a trimmed, padded or lower-cased variant do not)",
     })
 }
